@@ -24,6 +24,12 @@ enum Dev {
     WrongVenueOwner,
     WrongVenueDisc,
     WrongOracleKey,
+    /// everything valid and fresh, but the oracle reports a zero or negative price
+    NonPositivePrice,
+}
+
+fn desc_of(setup: OracleSetup, dev: Dev, slot: u64, now: i64) -> String {
+    format!("{:?} {:?} (clock slot {} unix {})", setup, dev, slot, now)
 }
 
 pub fn run(rng: &mut Rng, n: usize, rep: &mut Report) {
@@ -36,7 +42,7 @@ pub fn run(rng: &mut Rng, n: usize, rep: &mut Report) {
         OracleSetup::SolendPythPull,
         OracleSetup::SolendSwitchboardPull,
     ];
-    let devs = [Dev::None, Dev::RefreshedLater, Dev::StaleByOne, Dev::StaleFar, Dev::WrongVenueKey, Dev::WrongVenueOwner, Dev::WrongVenueDisc, Dev::WrongOracleKey];
+    let devs = [Dev::None, Dev::RefreshedLater, Dev::StaleByOne, Dev::StaleFar, Dev::WrongVenueKey, Dev::WrongVenueOwner, Dev::WrongVenueDisc, Dev::WrongOracleKey, Dev::NonPositivePrice];
     for i in 0..n {
         rep.bump("cases");
         let setup = setups[i % setups.len()];
@@ -67,11 +73,12 @@ pub fn run(rng: &mut Rng, n: usize, rep: &mut Report) {
         // ---- the price account: valid and fresh
         let mut odata = Vec::new();
         let oowner;
+        let neg: i64 = if dev == Dev::NonPositivePrice { *rng.pick(&[0i64, -1, -150_000_000, -2_000_000, i64::MIN / 4]) } else { 2_000_000 };
         if is_pyth {
             let upd = PriceUpdateV2 {
                 write_authority: Pubkey::default(),
                 verification_level: VerificationLevel::Full,
-                price_message: PriceFeedMessage { feed_id: okey.to_bytes(), price: 2_000_000, conf: 1000, exponent: -6, publish_time: now - 1, prev_publish_time: now - 2, ema_price: 2_000_000, ema_conf: 1000 },
+                price_message: PriceFeedMessage { feed_id: okey.to_bytes(), price: neg, conf: 1000, exponent: -6, publish_time: now - 1, prev_publish_time: now - 2, ema_price: neg, ema_conf: 1000 },
                 posted_slot: slot,
             };
             odata.extend_from_slice(<PriceUpdateV2 as Discriminator>::DISCRIMINATOR);
@@ -80,7 +87,7 @@ pub fn run(rng: &mut Rng, n: usize, rep: &mut Report) {
             oowner = pyth_solana_receiver_sdk::id();
         } else {
             let mut feed: PullFeedAccountData = bytemuck::Zeroable::zeroed();
-            feed.result.value = 2_000_000_000_000_000_000;
+            feed.result.value = if dev == Dev::NonPositivePrice { (neg as i128) * 1_000_000_000_000 } else { 2_000_000_000_000_000_000 };
             feed.result.std_dev = 1_000_000_000_000_000;
             feed.last_update_timestamp = now - 1;
             odata.extend_from_slice(&<PullFeedAccountData as switchboard_on_demand::Discriminator>::DISCRIMINATOR);
@@ -96,6 +103,12 @@ pub fn run(rng: &mut Rng, n: usize, rep: &mut Report) {
             0 => {
                 let mut r: kamino_mocks::state::MinimalReserve = bytemuck::Zeroable::zeroed();
                 r.slot = stamp_slot;
+                // a live exchange rate (1.05 liquidity per collateral unit) in two thirds of the cases, an empty reserve otherwise
+                if rng.chance(2, 3) {
+                    r.available_amount = 1_050_000_000 + rng.below(100_000_000);
+                    r.mint_total_supply = 1_000_000_000;
+                    r.mint_decimals = 6;
+                }
                 vdata.extend_from_slice(<kamino_mocks::state::MinimalReserve as Discriminator>::DISCRIMINATOR);
                 vdata.extend_from_slice(bytemuck::bytes_of(&r));
                 vowner_ok = kamino_mocks::ID;
@@ -109,6 +122,11 @@ pub fn run(rng: &mut Rng, n: usize, rep: &mut Report) {
             _ => {
                 let mut r: solend_mocks::state::SolendMinimalReserve = bytemuck::Zeroable::zeroed();
                 r.last_update_slot = stamp_slot;
+                if rng.chance(2, 3) {
+                    r.liquidity_available_amount = 1_050_000_000 + rng.below(100_000_000);
+                    r.collateral_mint_total_supply = 1_000_000_000;
+                    r.liquidity_mint_decimals = 6;
+                }
                 vdata.extend_from_slice(<solend_mocks::state::SolendMinimalReserve as Discriminator>::DISCRIMINATOR);
                 vdata.extend_from_slice(bytemuck::bytes_of(&r));
                 vowner_ok = solend_mocks::ID;
@@ -124,12 +142,27 @@ pub fn run(rng: &mut Rng, n: usize, rep: &mut Report) {
         let ais = [a0, a1];
         let r = catch_unwind(AssertUnwindSafe(|| {
             let ad = OraclePriceFeedAdapter::try_from_bank(&bank, &ais, &clock)?;
-            ad.get_price_of_type(OraclePriceType::RealTime, None, 0)
+            if dev == Dev::NonPositivePrice {
+                // what liquidation / receivership withdraw ask for before `check!(price > 0)`
+                ad.get_price_of_type(OraclePriceType::RealTime, Some(marginfi::state::price::PriceBias::Low), 0)
+            } else {
+                ad.get_price_of_type(OraclePriceType::RealTime, None, 0)
+            }
         }));
         let desc = format!("{:?} {:?} (clock slot {} unix {}; venue stamped slot {} / ts {})", setup, dev, slot, now, stamp_slot, stamp_ts);
+        if dev == Dev::NonPositivePrice {
+            rep.bump(match &r { Ok(Ok(p)) if *p > fixed::types::I80F48::ZERO => "nonpositive_became_positive", Ok(Ok(_)) => "nonpositive_stays_nonpositive", _ => "nonpositive_refused" });
+            if let Ok(Ok(p)) = &r {
+                if *p > fixed::types::I80F48::ZERO {
+                    rep.fail(format!("C09 a zero or negative reported price ({}) came out of the adapter as the POSITIVE price {} (usable to seize collateral / size a liquidation): {}", neg, p, desc_of(setup, dev, slot, now)));
+                }
+            }
+            continue;
+        }
         let produced = matches!(&r, Ok(Ok(_)));
         rep.bump(&format!("{}_{:?}", if produced { "priced" } else { "refused" }, dev));
         match dev {
+            Dev::NonPositivePrice => {} // judged above
             Dev::RefreshedLater => {} // not required either way by the property; counted in the statistics only
             Dev::None => {
                 if !produced {
